@@ -111,11 +111,13 @@ type exec struct {
 type Model struct {
 	Table   script.Table
 	NoParse bool
-	stmts   map[string]*mStmt
-	portals map[string]*mPortal
-	Discard bool
-	cur     *exec
-	Closed  bool
+	// StmtCap / PortalCap: bounded user caches (script.Config); 0 = unbounded
+	StmtCap, PortalCap int
+	stmts              map[string]*mStmt
+	portals            map[string]*mPortal
+	Discard            bool
+	cur                *exec
+	Closed             bool
 	// SrvClosing: a statement called Server.Close: the command it belongs to still completes (every
 	// statement runs, every result is delivered); afterwards the server ends the connection
 	SrvClosing bool
@@ -237,12 +239,18 @@ func (m *Model) Step(msg script.CMsg) (out []Exp, evs []ExpEv) {
 		case len(o.Stmts) != 1:
 			return extErr(fmt.Sprintf("%d statements in Parse", len(o.Stmts)), nil), evs
 		}
+		if _, has := m.stmts[msg.Name]; m.StmtCap > 0 && !has && len(m.stmts) >= m.StmtCap {
+			return extErr("the statement cache refused the statement", nil), evs
+		}
 		m.stmts[msg.Name] = &mStmt{q: msg.Query, st: o.Stmts[0]}
 		return []Exp{{T: '1'}}, evs
 	case "B":
 		s, ok := m.stmts[msg.Name]
 		if !ok {
 			return extErr("Bind: unknown statement "+msg.Name, nil), nil
+		}
+		if _, has := m.portals[msg.Portal]; m.PortalCap > 0 && !has && len(m.portals) >= m.PortalCap {
+			return extErr("the portal cache refused the portal", nil), nil
 		}
 		m.portals[msg.Portal] = &mPortal{stmt: s, params: msg.Params, pfmts: msg.PFmts, rfmts: msg.RFmts}
 		return []Exp{{T: '2'}}, nil
